@@ -406,6 +406,29 @@ fn ints(out: &mut Vec<Decl>) {
         }
     }
 
+    // G2. defaults exactly at, and next to, each kind of bound (exclusive bound == default must panic)
+    for t in [IntTy::I32, IntTy::U16, IntTy::I128] {
+        let n = t.name();
+        let cases: Vec<(&str, Vec<ValSpec>, String)> = vec![
+            ("greater-at", vec![ValSpec::Greater(b_int(t, 0))], "0".into()),
+            ("greater-above", vec![ValSpec::Greater(b_int(t, 0))], "1".into()),
+            ("ge-at", vec![ValSpec::GreaterEq(b_int(t, 3))], "3".into()),
+            ("ge-below", vec![ValSpec::GreaterEq(b_int(t, 3))], "2".into()),
+            ("less-at", vec![ValSpec::Less(b_int(t, 50))], "50".into()),
+            ("less-below", vec![ValSpec::Less(b_int(t, 50))], "49".into()),
+            ("le-at", vec![ValSpec::LessEq(b_int(t, 50))], "50".into()),
+            ("le-above", vec![ValSpec::LessEq(b_int(t, 50))], "51".into()),
+            ("less-max-at", vec![ValSpec::Less(expr_i("type-max", &format!("{n}::MAX"), t.max_v()))], format!("{n}::MAX")),
+            ("greater-const-at", vec![ValSpec::Greater(expr_i("const", "KA", 5)), ValSpec::LessEq(b_int(t, 90))], "KA".into()),
+            ("both-at-upper", vec![ValSpec::GreaterEq(b_int(t, 1)), ValSpec::Less(b_int(t, 9))], "9".into()),
+        ];
+        for (name, vals, def) in cases {
+            let mut d = std(Decl::new(Inner::Int(t)), vals).tag(&format!("int-default-at-bound:{name}"));
+            d.default = Some(DefaultSpec { macro_text: def.clone(), neutral_text: def, class: name.into() });
+            out.push(with_derives(d, &[Tr::Debug, Tr::Clone, Tr::PartialEq, Tr::Default, Tr::TryFrom]));
+        }
+    }
+
     // H. narrow ranges for the surjectivity check (C14), literal and expression bounds
     for t in INT_TYS {
         let base = if t.signed() { -3i128 } else { 4 };
@@ -616,6 +639,22 @@ fn floats(out: &mut Vec<Decl>) {
         for (class, mt) in [("valid", "10.0"), ("invalid", "1000.0"), ("nan", &format!("{ty}::NAN") as &str), ("neg-zero", "-0.0")] {
             let mut d = std(Decl::new(inner), vec![ValSpec::Finite, ValSpec::Less(lit_f(50.0))]).tag(&format!("float-default:{class}"));
             d.default = Some(DefaultSpec { macro_text: mt.into(), neutral_text: mt.into(), class: class.into() });
+            out.push(with_derives(d, &[Tr::Debug, Tr::Clone, Tr::PartialEq, Tr::Default, Tr::TryFrom]));
+        }
+
+        // G2. defaults exactly at each kind of bound, signed zeros included
+        for (name, vals, def) in [
+            ("greater-zero-at-negzero", vec![ValSpec::Greater(lit_f(0.0))], "-0.0"),
+            ("greater-zero-at-zero", vec![ValSpec::Greater(lit_f(0.0))], "0.0"),
+            ("ge-zero-at-negzero", vec![ValSpec::GreaterEq(lit_f(0.0))], "-0.0"),
+            ("less-at", vec![ValSpec::Less(lit_f(50.0))], "50.0"),
+            ("le-at", vec![ValSpec::LessEq(lit_f(50.0))], "50.0"),
+            ("less-at-with-lower", vec![ValSpec::GreaterEq(lit_f(1.0)), ValSpec::Less(lit_f(9.5))], "9.5"),
+            ("greater-const-at", vec![ValSpec::Greater(expr_f("const", "KA", 5.0))], "KA"),
+            ("less-just-below", vec![ValSpec::Less(lit_f(50.0))], "49.999999999999"),
+        ] {
+            let mut d = std(Decl::new(inner), vals).tag(&format!("float-default-at-bound:{name}"));
+            d.default = Some(DefaultSpec { macro_text: def.into(), neutral_text: def.into(), class: name.into() });
             out.push(with_derives(d, &[Tr::Debug, Tr::Clone, Tr::PartialEq, Tr::Default, Tr::TryFrom]));
         }
 
